@@ -205,6 +205,20 @@ pub enum Rec {
     Lost { t: u64, conn: usize, reason: String },
 }
 
+/// Anti-amplification ledger kept by the link for one server connection (C07/C15)
+#[derive(Debug, Default, Clone)]
+pub struct AmpLedger {
+    /// per remote address: bytes received from it that the endpoint handed (or will hand) to this connection
+    pub recvd: BTreeMap<SocketAddr, u64>,
+    /// per remote address: bytes this connection sent to it
+    pub sent: BTreeMap<SocketAddr, u64>,
+    pub validated: BTreeMap<SocketAddr, bool>,
+    /// times the connection was seen to stop at the limit and later resume
+    pub blocked_then_resumed: u32,
+    pub was_at_limit: bool,
+    pub max_ratio_x100: u64,
+}
+
 pub struct ConnState {
     pub ep: usize,
     pub ch: ConnectionHandle,
@@ -235,6 +249,7 @@ pub struct ConnState {
     pub last_auth_rx_us: Option<u64>,
     /// largest PTO (any space, µs) observed immediately before/after processing a datagram
     pub max_pto_us: u64,
+    pub amp: AmpLedger,
 }
 
 pub struct EpState {
@@ -244,7 +259,9 @@ pub struct EpState {
     pub spec: EpSpec,
     pub is_server: bool,
     pub by_handle: BTreeMap<usize, usize>,
-    pub pending_incoming: Vec<(u64, Incoming)>,
+    pub pending_incoming: Vec<(u64, Incoming, u64)>,
+    /// bytes received from an address while an Incoming from it is being held (credited at accept)
+    pub pending_bytes: BTreeMap<SocketAddr, u64>,
     pub server_cfg: Option<Arc<ServerConfig>>,
 }
 
@@ -373,6 +390,9 @@ pub struct World {
     pub attack_log: Vec<(u64, String)>,
     /// last 16 bytes of every datagram the attacker put on the link
     pub attack_tails: Vec<Vec<u8>>,
+    pub last_incoming_size: u64,
+    /// check the 3x anti-amplification inequality on every datagram a server connection emits
+    pub check_amp: bool,
     pub client_token_store: Option<Arc<dyn quinn_proto::TokenStore>>,
     pub server_token_log: Option<Arc<dyn quinn_proto::TokenLog>>,
 }
@@ -448,6 +468,8 @@ impl World {
             attacks: vec![],
             attack_log: vec![],
             attack_tails: vec![],
+            last_incoming_size: 0,
+            check_amp: true,
             client_token_store: None,
             server_token_log: None,
             spec,
@@ -498,6 +520,7 @@ impl World {
             is_server,
             by_handle: BTreeMap::new(),
             pending_incoming: vec![],
+            pending_bytes: BTreeMap::new(),
             server_cfg: sc,
         });
         idx
@@ -571,6 +594,7 @@ impl World {
             closed_at: None,
             last_auth_rx_us: None,
             max_pto_us: 0,
+            amp: AmpLedger::default(),
         });
         Ok(k)
     }
@@ -686,6 +710,15 @@ impl World {
             }
         }
         out
+    }
+
+    /// Decode a datagram for the link's own bookkeeping (packet numbers are not expanded)
+    fn observe_quiet(&mut self, bytes: &[u8], short_cid_len: usize) -> Vec<PktRec> {
+        let was = self.observe;
+        self.observe = true;
+        let v = self.observe_dgram(None, bytes, short_cid_len);
+        self.observe = was;
+        v
     }
 
     /// Put one datagram on the link, applying the fault stream of its direction
@@ -914,6 +947,40 @@ impl World {
         let rcl = self.conns[k].remote_cid_len;
         let mut dgrams = vec![];
         for chunk in buf[..t.size].chunks(seg.max(1)) {
+            if self.check_amp && self.conns[k].side.is_server() {
+                let dst = t.destination;
+                let (recvd, sent, validated) = {
+                    let a = &self.conns[k].amp;
+                    (a.recvd.get(&dst).copied().unwrap_or(0), a.sent.get(&dst).copied().unwrap_or(0), a.validated.get(&dst).copied().unwrap_or(false))
+                };
+                if !validated {
+                    // documented allowance: one datagram may be completed once any budget remains
+                    if sent + 1 > 3 * recvd {
+                        let what: Vec<_> = self.observe_quiet(chunk, rcl).iter().map(|p| (p.ty, p.frames.clone())).collect();
+                        self.viol.push(Viol {
+                            sig: "c07/amplification".into(),
+                            msg: format!(
+                                "t={} server conn {k}: emits a {}-byte datagram to unvalidated {dst} after sending {sent} bytes although only {recvd} bytes were received from it (limit 3x = {}); packets: {what:?}",
+                                self.now,
+                                chunk.len(),
+                                3 * recvd
+                            ),
+                        });
+                    }
+                    let a = &mut self.conns[k].amp;
+                    let after = sent + chunk.len() as u64;
+                    if recvd > 0 {
+                        a.max_ratio_x100 = a.max_ratio_x100.max(after * 100 / recvd);
+                    }
+                    if after >= 3 * recvd {
+                        a.was_at_limit = true;
+                    } else if a.was_at_limit {
+                        a.blocked_then_resumed += 1;
+                        a.was_at_limit = false;
+                    }
+                }
+                *self.conns[k].amp.sent.entry(dst).or_insert(0) += chunk.len() as u64;
+            }
             let pkts = self.observe_dgram(Some(k), chunk, rcl);
             let rec = self.emit(ep, Some(k), t.destination, t.ecn, chunk.to_vec(), pkts);
             dgrams.push(rec);
@@ -1143,7 +1210,7 @@ impl World {
                 }
             },
             Some(DatagramEvent::NewConnection(inc)) => {
-                self.on_incoming(ep, inc);
+                self.on_incoming(ep, inc, size as u64);
                 Routed::NewIncoming
             }
             Some(DatagramEvent::Response(t)) => {
@@ -1156,14 +1223,33 @@ impl World {
                 }
                 Routed::Response(t.size)
             }
-            None => Routed::Nothing,
+            None => {
+                // possibly buffered for an Incoming that is being held
+                if self.eps[ep].pending_incoming.iter().any(|(_, i, _)| i.remote_address() == f.from) {
+                    *self.eps[ep].pending_bytes.entry(f.from).or_insert(0) += size as u64;
+                }
+                Routed::Nothing
+            }
         };
+        if let Routed::Conn(k) = routed {
+            if self.conns[k].side.is_server() {
+                *self.conns[k].amp.recvd.entry(f.from).or_insert(0) += size as u64;
+                // validation evidence: a genuine Handshake packet, or a PATH_RESPONSE, from that address
+                if !f.corrupted {
+                    let rcl = self.eps[ep].spec.cid_len as usize;
+                    let pk = self.observe_quiet(&f.bytes, rcl);
+                    if pk.iter().any(|p| p.ty == wire::PktType::Handshake || p.has(|x| matches!(x, OF::PathResponse(_)))) {
+                        self.conns[k].amp.validated.insert(f.from, true);
+                    }
+                }
+            }
+        }
         if self.record {
             self.trace.push(Rec::Rx { t: self.now, ep, from: f.from, dgram_id: f.dgram_id, origin_conn: f.origin_conn, size, routed, copy: f.copy, corrupted: f.corrupted, injected: f.injected });
         }
     }
 
-    fn on_incoming(&mut self, ep: usize, inc: Incoming) {
+    fn on_incoming(&mut self, ep: usize, inc: Incoming, size: u64) {
         let srv = self.spec.srv.clone();
         if srv.retry && !inc.remote_address_validated() && inc.may_retry() {
             let mut buf = Vec::new();
@@ -1180,22 +1266,31 @@ impl World {
                 Err(e) => {
                     let inc = e.into_incoming();
                     let t = self.now;
-                    self.accept(ep, inc, t);
+                    self.accept(ep, inc, t, size);
                 }
             }
             return;
         }
         if srv.accept_delay_us > 0 {
             let at = self.now + srv.accept_delay_us as u64;
-            self.eps[ep].pending_incoming.push((at, inc));
+            self.eps[ep].pending_incoming.push((at, inc, size));
             return;
         }
         let t = self.now;
-        self.accept(ep, inc, t);
+        self.accept(ep, inc, t, size);
     }
 
-    fn accept(&mut self, ep: usize, inc: Incoming, recv_at: u64) {
+    fn accept(&mut self, ep: usize, inc: Incoming, recv_at: u64, first_size: u64) {
         let odcid = inc.orig_dst_cid().to_vec();
+        let remote = inc.remote_address();
+        let token_validated = inc.remote_address_validated();
+        let mut amp = AmpLedger::default();
+        let first = first_size;
+        let held = self.eps[ep].pending_bytes.remove(&remote).unwrap_or(0);
+        amp.recvd.insert(remote, first + held);
+        if token_validated {
+            amp.validated.insert(remote, true);
+        }
         let now = self.now_instant();
         let mut buf = Vec::new();
         // transport config with a fresh cc log for this connection
@@ -1208,7 +1303,7 @@ impl World {
                 let (load_idx, peer) = self.pair_for(&odcid);
                 let load = self.loads.get(load_idx).cloned().unwrap_or(ConnLoad { client: SideLoad::default(), server: SideLoad::default() });
                 let ledger = self.ledgers.get(load_idx).cloned().unwrap_or_else(|| Rc::new(RefCell::new(Ledger::default())));
-                let key = crate::core::mix(self.spec.seed, 0xc0 + load_idx as u64);
+                let key = crate::core::mix(self.spec.seed, (load_idx as u64).wrapping_add(0xc0));
                 let mut app = App::new(Side::Server, key, load.server.clone(), load.client.clone(), ledger);
                 app.dgram_cfg = (self.spec.server_tc.dgram_recv.map(|x| x as usize), self.spec.server_tc.dgram_send as usize);
                 app.peer_dgram_recv = self.spec.client_tc.dgram_recv.map(|x| (x as usize).min(65535));
@@ -1240,6 +1335,7 @@ impl World {
                     closed_at: None,
                     last_auth_rx_us: Some(recv_at),
                     max_pto_us: 0,
+                    amp,
                 });
                 if let Some(p) = peer {
                     self.conns[p].peer = Some(k);
@@ -1305,7 +1401,7 @@ impl World {
             }
         }
         for e in &self.eps {
-            for (at, _) in &e.pending_incoming {
+            for (at, _, _) in &e.pending_incoming {
                 upd(*at);
             }
         }
@@ -1360,11 +1456,11 @@ impl World {
             }
             // pending accepts
             for ep in 0..self.eps.len() {
-                let due: Vec<usize> = self.eps[ep].pending_incoming.iter().enumerate().filter(|(_, (at, _))| *at <= self.now).map(|(i, _)| i).collect();
+                let due: Vec<usize> = self.eps[ep].pending_incoming.iter().enumerate().filter(|(_, (at, _, _))| *at <= self.now).map(|(i, _)| i).collect();
                 for i in due.into_iter().rev() {
-                    let (at, inc) = self.eps[ep].pending_incoming.remove(i);
+                    let (at, inc, size) = self.eps[ep].pending_incoming.remove(i);
                     let recv_at = at.saturating_sub(self.spec.srv.accept_delay_us as u64);
-                    self.accept(ep, inc, recv_at);
+                    self.accept(ep, inc, recv_at, size);
                 }
             }
             let timeouts_first = self.spec.drv.timeout_first;
